@@ -597,6 +597,33 @@ pub fn label_deltas(p: &Program) -> Vec<(usize, i64, u32)> {
     out
 }
 
+/// Wrap `p` so that its last statement refers back to a label on a new first statement, with
+/// the whole program being exactly `total` words long (padding right after the first statement);
+/// the reference is out of reach iff `total` exceeds the reach of the field. Returns None if the
+/// program is already longer than `total`.
+pub fn with_backward_reference(p: &Program, op: Op, regs: &[u8], total: usize) -> Option<Program> {
+    let mut w0 = 0usize;
+    for l in &p.lines {
+        if let Body::Stmt(s) = &l.body {
+            w0 += s.size()?;
+        }
+    }
+    let pad = total.checked_sub(w0 + 2)?;
+    let mut lines: Vec<Line> = Vec::new();
+    let mut rest = p.lines.clone();
+    // keep a leading `.orig` first
+    if matches!(rest.first().map(|l| &l.body), Some(Body::Orig(_))) {
+        lines.push(rest.remove(0));
+    }
+    lines.push(Line::stmt(Some("FARBACK"), Stmt::new(Op::Add, &[0, 0], Operand::Lit(Lit::Dec(0)))));
+    if pad > 0 {
+        lines.push(Line::stmt(None, Stmt::new(Op::Blkw, &[], Operand::Lit(Lit::Dec(pad as i32)))));
+    }
+    lines.extend(rest);
+    lines.push(Line::stmt(None, Stmt::new(op, regs, Operand::Label("FARBACK".into()))));
+    Some(Program { lines })
+}
+
 /// Convenience: encode a program that is accepted by construction.
 pub fn encode(p: &Program, stack: bool) -> Option<RefImage> {
     match judge(p, stack) {
